@@ -4,24 +4,24 @@ import json, os, subprocess
 HERE = os.path.dirname(os.path.dirname(os.path.abspath(__file__)))
 CHECKS = {
  # id: (engine, technique, level text, level note, design ref)
- "C01": ("SEQ+CONC+FUZZ", "model-based stateful PBT (proptest) with invariant over every observation", "weight bound 0 <= used <= limit observed after every op, inside stall windows and after release on thousands of generated histories under pressure", "reference model + hooks trusted; F5 trigger excluded by construction and probed separately", "5/C01"),
+ "C01": ("SEQ+CONC+FUZZ", "model-based stateful PBT (proptest) with invariant over every observation", "weight bound 0 <= used <= limit observed after every op, inside stall windows and after release on thousands of generated histories under pressure; after a noted over-limit upsert (F5) every accepted put must restore the bound; readers polling the total of a full cache of thousands of keys under evicting puts", "reference model + hooks trusted; F5 trigger excluded by construction and probed separately", "5/C01"),
  "C02": ("SEQ+CONC", "generated concurrent programs + delay injection, pure history checker over stamped logs (unique value tokens)", "every value returned by any of the 7 read variants in generated concurrent histories is checked for origin, key and staleness", "stamps from one atomic counter; one-directional rule (absent always allowed); interleavings sampled", "5/C02"),
- "C03": ("SEQ+CONC+VOLUME+FUZZ", "model-based stateful PBT against a reference model (no-pressure histories)", "every accepted, undeleted, unexpired key is physically present and readable after every op of generated no-pressure histories", "reference model trusted; clock owned by harness", "5/C03"),
- "C04": ("SEQ+CONC+FUZZ", "model-based stateful PBT with worker stall windows", "reads between delete() returning and its acknowledgement, statuses of deletes in every key state, weight release checked against the model", "reference model trusted", "5/C04"),
- "C05": ("SEQ+CONC+VOLUME+FUZZ", "model-based stateful PBT; invariant over physical snapshots at every quiescent point", "bijection store ids <-> charged ids and weight total == sum of charges after every quiescent step incl. unawaited same-key bursts", "snapshot hooks trusted", "5/C05"),
- "C06": ("SEQ+CONC+FUZZ", "trace validation: every admission step re-validated against independently pre-read estimates (validity predicate)", "every admission decision of generated pressure histories validated step by step", "AdmissionStep trace events trusted to reflect the decision loop; cross-checked with snapshots and pre-read estimates", "5/C06"),
+ "C03": ("SEQ+CONC+VOLUME+FUZZ", "model-based stateful PBT against a reference model (no-pressure histories)", "every accepted, undeleted, unexpired key is physically present and readable after every op of generated no-pressure histories; bulk histories of thousands of keys against a plain map; in concurrent histories a key with a single sequential writer must read back its latest value / be held at quiescence; directed regression of F11 and F12", "reference model trusted; clock owned by harness", "5/C03"),
+ "C04": ("SEQ+CONC+FUZZ", "model-based stateful PBT with worker stall windows", "reads between delete() returning and its acknowledgement, statuses of deletes in every key state, weight release checked against the model; deletes, upserts and puts (single and in stall-window bursts) on expired-unswept keys with the sweeper parked", "reference model trusted", "5/C04"),
+ "C05": ("SEQ+CONC+VOLUME+FUZZ", "model-based stateful PBT; invariant over physical snapshots at every quiescent point", "bijection store ids <-> charged ids and weight total == sum of charges after every quiescent step incl. unawaited same-key bursts; bulk histories of thousands of keys (store, weight map, expiry index and total compared with a plain map after each phase)", "snapshot hooks trusted", "5/C05"),
+ "C06": ("SEQ+CONC+FUZZ", "trace validation: every admission step re-validated against independently pre-read estimates (validity predicate)", "every admission decision of generated pressure histories validated step by step; directed regression of F12 (a put that fits must evict nothing)", "AdmissionStep trace events trusted to reflect the decision loop; cross-checked with snapshots and pre-read estimates", "5/C06"),
  "C07": ("SEQ+CONC+FUZZ", "model-based stateful PBT over key life-cycle states", "all four put variants on keys in generated life-cycle states; statuses and untouched state compared with the model", "reference model trusted; F6 excluded and probed", "5/C07"),
  "C08": ("SEQ+FUZZ", "model-based stateful PBT over request shapes x key states", "all builder-accepted put_or_update shapes; effects checked at return and after acknowledgement", "reference model trusted; F7 excluded and probed", "5/C08"),
- "C09": ("SEQ+CONC+VOLUME+FUZZ", "model-based stateful PBT with harness-owned clock and deadline walks", "reads 1 ns before / on / after deadlines after TTL changes, with the sweeper on and off", "reference model trusted", "5/C09"),
- "C10": ("SEQ+CONC+VOLUME+FUZZ", "model-based stateful PBT with synchronised sweeps and shard rotations", "safety after every completed sweep and bounded liveness after a full shard rotation on generated TTL histories", "sweep-counter hooks trusted", "5/C10"),
+ "C09": ("SEQ+CONC+VOLUME+FUZZ", "model-based stateful PBT with harness-owned clock and deadline walks", "reads 1 ns before / on / after deadlines after TTL changes, with the sweeper on and off; bulk histories with second-by-second clock walks; sole-writer keys in concurrent histories must be readable until their earliest possible deadline", "reference model trusted", "5/C09"),
+ "C10": ("SEQ+CONC+VOLUME+FUZZ", "model-based stateful PBT with synchronised sweeps and shard rotations", "safety after every completed sweep and bounded liveness after a full shard rotation on generated TTL histories; bulk histories (thousands of expiries per sweep, up to 1024 expiry shards); a sweeper that completes no sweep for a watchdog period is a violation", "sweep-counter hooks trusted", "5/C10"),
  "C11": ("SEQ+CONC+FUZZ", "generated unawaited bursts + injection; trace checker (exactly once, non-overlapping, submission order) and acknowledgement-order probe", "trace of executed commands compared with the call history of generated bursts on queues down to 1", "Executed/Sent trace events trusted; commands identified by a per-acknowledgement id (hook)", "5/C11"),
- "C12": ("ACK+SEQ+CONC", "harness-owned schedules: exhaustive enumeration of bounded shapes + generated choice vectors (proptest) + end-to-end stress", "all interleavings of done() with polls for shapes <= 2 tasks x 2 polls / 1 task x 3 polls enumerated; larger shapes sampled; 320k real puts busy-polled/parked", "schedule points + serialising turnstile trusted; x86 memory ordering not explored", "5/C12"),
- "C13": ("SEQ+ACK+CONC", "generated concurrent programs with shutdown calls + injection between the steps of shutdown(); history checker", "statuses and return values of every call around generated shutdown points; every acknowledgement completes; shutdown returns", "no-progress watchdog (15 s quick, 60 s thorough) is the only timing oracle", "5/C13"),
+ "C12": ("ACK+SEQ+CONC", "harness-owned schedules: exhaustive enumeration of bounded shapes + generated choice vectors (proptest) + end-to-end stress", "all interleavings of done() with polls for shapes <= 2 tasks x 2 polls / 1 task x 3 polls enumerated; larger shapes sampled; 320k real puts busy-polled/parked; sequential stall-window bursts judged for 'acknowledged Accepted => executed and visible'", "schedule points + serialising turnstile trusted; x86 memory ordering not explored", "5/C12"),
+ "C13": ("SEQ+ACK+CONC", "generated concurrent programs with shutdown calls + injection between the steps of shutdown(); history checker", "statuses and return values of every call around generated shutdown points; every acknowledgement completes; shutdown returns; acknowledgement schedules completed with ShuttingDown (the wake-up must reach the caller)", "no-progress watchdog (15 s quick, 60 s thorough) is the only timing oracle", "5/C13"),
  "C14": ("SKETCH+FUZZ", "differential testing against an unpacked reference; exhaustive byte table + generated streams (proptest)", "256-value byte table enumerated; generated streams over all counter sizes compared counter by counter after every op; ageing checked at the exact threshold", "thin wrappers trusted to delegate; bloom filter answers observed, everything else predicted", "5/C14"),
- "C15": ("SEQ+CONC+VOLUME", "generated read workloads with the consumer free/stopped (gate hook); counter identities at quiescence", "hits == buffered + delivered + dropped on generated multi-threaded read workloads with pool/buffer sizes down to 1", "gate and buffered-count hooks trusted", "5/C15"),
- "C16": ("SEQ+CONC+VOLUME+FUZZ", "model-based stateful PBT: model counters vs stats_summary at every quiescent point", "all counters and hit ratio compared with the model after every op", "reference model trusted", "5/C16"),
- "C17": ("SEQ+CONC+FUZZ", "boundary-value stateful PBT with catch_unwind, global panic hook and liveness probe", "generated histories/configurations at arithmetic boundaries; no caller or background panic; worker/consumer/sweeper alive afterwards", "panic attribution through thread-local hook instance", "5/C17"),
- "C18": ("CONC", "generated concurrent programs with maximal lock sharing + delay injection after lock sites; no-progress watchdog with CPU check", "no generated program blocked: every call returned, every acknowledgement completed, background threads alive afterwards", "sampling of schedules; blocked = no progress for 15 s (quick) / 60 s (thorough) with idle threads", "5/C18"),
+ "C15": ("SEQ+CONC+VOLUME", "generated read workloads with the consumer free/stopped (gate hook); counter identities at quiescence", "hits == buffered + delivered + dropped on generated multi-threaded read workloads with pool/buffer sizes down to 1; bulk reads with access buffers up to 1000: every delivered record must be recorded by the sketch", "gate and buffered-count hooks trusted", "5/C15"),
+ "C16": ("SEQ+CONC+VOLUME+FUZZ", "model-based stateful PBT: model counters vs stats_summary at every quiescent point", "all counters and hit ratio compared with the model after every op; bulk histories and a directed volume scenario (sweeper and worker removing tens of thousands of keys at the same time)", "reference model trusted", "5/C16"),
+ "C17": ("SEQ+CONC+FUZZ", "boundary-value stateful PBT with catch_unwind, global panic hook and liveness probe", "generated histories/configurations at arithmetic boundaries; no caller or background panic; worker/consumer/sweeper alive afterwards; tiny programs under the controlled scheduler (no background thread may stop making progress)", "panic attribution through thread-local hook instance", "5/C17"),
+ "C18": ("CONC", "generated concurrent programs with maximal lock sharing + delay injection after lock sites; no-progress watchdog with CPU check", "no generated program blocked: every call returned, every acknowledgement completed, background threads alive afterwards; readers through get_ref against evicting puts with a saturated access pipeline; eviction vs sweeper; sweep races", "sampling of schedules; blocked = no progress for 15 s (quick) / 60 s (thorough) with idle threads", "5/C18"),
 }
 PENDING = {
 }
